@@ -146,6 +146,11 @@ def run(tier, seed):
         singles = [outs_of(res[j], i) for i, j in enumerate(e["single"])]
         for o, j in e["multi"]:
             rep.count("orders")
+            if not any(isinstance(x, tuple) for x in singles) and not res[j].get("ok"):
+                rep.violation("every package generates alone, but the %d-package configuration (order %s) fails: %s"
+                              % (k, o, (res[j].get("stderr") or str(res[j].get("panic")))[:160]),
+                              {"packages": e["pkgs"], "order": o, "files": e["files"], "global": e["glob"], "stderr": res[j].get("stderr")})
+                continue
             for i in range(k):
                 got = outs_of(res[j], i)
                 if isinstance(singles[i], tuple) or isinstance(got, tuple):
